@@ -3,6 +3,7 @@
 //! The harness contains no oracle: it executes operation sequences on the real code and
 //! records what came back as NDJSON; every comparison that decides a property is made by
 //! TLC against a TLA+ definition (see /verif/specs).
+mod codec;
 mod deque;
 mod util;
 
@@ -15,6 +16,7 @@ fn main() {
     util::silence_panics();
     match args[1].as_str() {
         "deque" => deque::drive_deque(&args[2], &args[3]),
+        "codec" => codec::drive_codec(&args[2], &args[3]),
         "sorted" => deque::drive_sorted(&args[2], &args[3]),
         e => {
             eprintln!("unknown engine {e}");
